@@ -642,7 +642,9 @@ func famListStrings() *family {
 			do:    func(c *imapclient.Client) error { return c.List(v[0], v[1], nil).Close() },
 			check: func(calls []srvkit.Call) (string, string) { return listCheck(calls, v[0], v[1], nil) },
 			rejectKey: func(err error) string {
-				if needsUTF7(v[1]) && !needsUTF7(v[0]) {
+				// the reference position is swept on its own with a plain pattern; a rejection
+				// with a pattern whose modified UTF-7 form differs from itself is the pattern's
+				if needsUTF7(v[1]) {
 					return "pattern-not-utf7"
 				}
 				return ""
@@ -1185,36 +1187,37 @@ func searchCase(uid bool, crit *imap.SearchCriteria, opts *imap.SearchOptions, d
 	}
 	d := kindName(uid) + "SEARCH"
 	if opts != nil {
-		d += fmt.Sprintf(" return=%+v", *opts)
+		d += " return=" + searchOptStr(*opts)
 	}
 	d += " criteria={" + critNorm(crit) + "}"
 	if desc != "" {
 		d += " (" + desc + ")"
 	}
-	return &tcase{cmd: "search", state: stSelected, legal: legal, limit: limit, nontrivial: ntSig(nt), desc: d,
-		do: func(c *imapclient.Client) error {
-			var err error
-			if uid {
-				_, err = c.UIDSearch(crit, opts).Wait()
-			} else {
-				_, err = c.Search(crit, opts).Wait()
-			}
-			return err
-		},
-		check: func(calls []srvkit.Call) (string, string) {
-			c, w, m := one(calls, "Search", 3)
-			if w != "" {
-				return w, m
-			}
-			if k, _ := c.Args[0].(imapserver.NumKind); k != wantKind(uid) {
-				return "kind-altered", fmt.Sprintf("issued %sSEARCH, backend received kind %v", kindName(uid), c.Args[0])
-			}
-			got := c.Args[1].(imap.SearchCriteria)
-			if w, m := critEq(issued, &got); w != "" {
-				return w, m
-			}
-			return searchOptsEq(io, c.Args[2].(imap.SearchOptions))
-		}}
+	tc := &tcase{cmd: "search", state: stSelected, legal: legal, limit: limit, nontrivial: ntSig(nt), desc: d}
+	tc.do = func(c *imapclient.Client) error {
+		var err error
+		if uid {
+			_, err = c.UIDSearch(crit, opts).Wait()
+		} else {
+			_, err = c.Search(crit, opts).Wait()
+		}
+		return err
+	}
+	tc.check = func(calls []srvkit.Call) (string, string) {
+		c, w, m := one(calls, "Search", 3)
+		if w != "" {
+			return w, m
+		}
+		if k, _ := c.Args[0].(imapserver.NumKind); k != wantKind(uid) {
+			return "kind-altered", fmt.Sprintf("issued %sSEARCH, backend received kind %v", kindName(uid), c.Args[0])
+		}
+		got := c.Args[1].(imap.SearchCriteria)
+		if w, m := critEq(issued, &got, tc.ctx); w != "" {
+			return w, m
+		}
+		return searchOptsEq(io, c.Args[2].(imap.SearchOptions))
+	}
+	return tc
 }
 
 func famSearchReturn() *family {
@@ -1324,13 +1327,16 @@ func conflict(a, b leaf) bool {
 
 // node is a skeleton: own leaf slots and wrappers.
 type node struct {
-	slots int
-	nots  []*node
-	ors   [][2]*node
+	slots  int
+	filler bool // an Or arm without leaf slot: a fixed criterion that matches no message of the universe, so that the Or is as selective as its other arm
+	nots   []*node
+	ors    [][2]*node
 }
 
 // skeletons(d, k): all skeletons of nesting depth <= d with exactly k leaf slots; every wrapper
-// holds at least one slot; an Or arm without slots is ALL.
+// holds at least one slot; an Or arm without slots is the filler TEXT "zz-no-such-text" (an ALL
+// arm would make the Or a tautology and hide its other arm from the differential oracle; ALL
+// arms are in the degenerate family).
 func skeletons(d, k int) []*node {
 	var out []*node
 	for own := 0; own <= k; own++ {
@@ -1354,6 +1360,12 @@ func skeletons(d, k int) []*node {
 			for a := 0; a <= n; a++ {
 				for _, x := range skeletons(d-1, a) {
 					for _, y := range skeletons(d-1, n-a) {
+						if a == 0 {
+							x = &node{filler: true}
+						}
+						if n-a == 0 {
+							y = &node{filler: true}
+						}
 						l = append(l, wrap{or: &[2]*node{x, y}})
 					}
 				}
@@ -1398,6 +1410,9 @@ func skeletons(d, k int) []*node {
 // of one node occupy the same scalar field.
 func build(n *node, leaves []leaf, next *int) (c imap.SearchCriteria, ok bool) {
 	ok = true
+	if n.filler {
+		c.Text = []string{"zz-no-such-text"}
+	}
 	var mine []leaf
 	for i := 0; i < n.slots; i++ {
 		l := leaves[*next]
